@@ -118,6 +118,10 @@ type VerifServerTrace struct {
 	Suite        uint16   // suite the server really keyed with
 	Group        CurveID  // group / curve the server really keyed with
 	SentHRR      bool
+	HRRSuite     uint16 // cipher suite field of the HelloRetryRequest as sent
+	ServerRandom []byte // ServerHello.random as sent (downgrade sentinel in the last 8 bytes)
+	HelloVers    uint16 // ServerHello.legacy_version as sent
+	HelloSV      uint16 // ServerHello supported_versions as sent (0 = extension absent)
 	ClientEE     []byte // raw client EncryptedExtensions message, if ReadClientEE
 	Err          error  // handshake error on the server side
 }
@@ -346,6 +350,14 @@ func (v *verifServer) overrideHello(h *serverHelloMsg, hrr bool) {
 	}
 	if s.HelloSupportedVersion != nil {
 		h.supportedVersion = *s.HelloSupportedVersion
+	}
+	if hrr {
+		s.Trace.HRRSuite = h.cipherSuite
+	} else {
+		s.Trace.ServerRandom = append([]byte(nil), h.random...)
+	}
+	if !hrr || s.Trace.HelloVers == 0 {
+		s.Trace.HelloVers, s.Trace.HelloSV = h.vers, h.supportedVersion
 	}
 }
 
